@@ -72,13 +72,13 @@ func DecodeAction(data []byte) (Action, error) {
 	case ActionType_Output:
 		a = new(ActionOutput)
 	case ActionType_CopyTtlOut:
-		a = new(ActionHeader)
+		a = new(ActionEmpty)
 	case ActionType_CopyTtlIn:
-		a = new(ActionHeader)
+		a = new(ActionEmpty)
 	case ActionType_SetMplsTtl:
 		a = new(ActionMplsTtl)
 	case ActionType_DecMplsTtl:
-		a = new(ActionHeader)
+		a = new(ActionEmpty)
 	case ActionType_PushVlan:
 		a = new(ActionPush)
 	case ActionType_PopVlan:
@@ -100,7 +100,7 @@ func DecodeAction(data []byte) (Action, error) {
 	case ActionType_PushPbb:
 		a = new(ActionPush)
 	case ActionType_PopPbb:
-		a = new(ActionHeader)
+		a = new(ActionEmpty)
 	case ActionType_Experimenter:
 		// For Experimenter message, the length of action should be at least 10 bytes,
 		// including type(2 byte), length(2 byte), vendor(4 byte), and subtype(2 byte)
@@ -297,6 +297,37 @@ func (a *ActionMplsTtl) UnmarshalBinary(data []byte) error {
 	a.ActionHeader.UnmarshalBinary(data[:4])
 	a.MplsTtl = data[4]
 	return nil
+}
+
+// ActionEmpty is an action that has no fields of its own: its header is followed by
+// 4 bytes of padding (copy-ttl-out, copy-ttl-in, dec-mpls-ttl, pop-pbb).
+type ActionEmpty struct {
+	ActionHeader
+	pad []byte // 4bytes
+}
+
+func (a *ActionEmpty) Len() (n uint16) {
+	return a.ActionHeader.Len() + 4
+}
+
+func (a *ActionEmpty) MarshalBinary() (data []byte, err error) {
+	data, err = a.ActionHeader.MarshalBinary()
+	if err != nil {
+		return
+	}
+
+	// Padding
+	bytes := make([]byte, 4)
+	data = append(data, bytes...)
+	return
+}
+
+func (a *ActionEmpty) UnmarshalBinary(data []byte) error {
+	if len(data) < int(a.Len()) {
+		return errors.New("The []byte the wrong size to unmarshal an " +
+			"ActionEmpty message.")
+	}
+	return a.ActionHeader.UnmarshalBinary(data[:4])
 }
 
 type ActionDecNwTtl struct {
